@@ -72,3 +72,20 @@ Check evaluate_function_keeps_registrations :
   forall (I : iface) (sw : switches) (name : text) (args : option (list value)) (w : world),
     host_regs (snd (evaluate_function I sw name args w)) = host_regs w.
 Print Assumptions evaluate_function_keeps_registrations.
+
+(* ---------------- in one statement: what a successful evaluate_function leaves alone ---------------- *)
+From Ink.Shell Require Import HostFrame EvalSummary.
+Theorem successful_evaluation_frame :
+  forall (I : iface) (sw : switches) (name : text) (args : option (list value)) (w w' : world) r txt,
+    evaluate_function I sw name args w = (OOk (r, txt), w') ->
+       ss_out (w_state w') = ss_out (w_state w)
+    /\ host_regs w' = host_regs w
+    /\ (exists l, w_events w' = w_events w ++ l).
+Proof. exact EvalSummary.successful_evaluation_frame. Qed.
+Check successful_evaluation_frame :
+  forall (I : iface) (sw : switches) (name : text) (args : option (list value)) (w w' : world) r txt,
+    evaluate_function I sw name args w = (OOk (r, txt), w') ->
+       ss_out (w_state w') = ss_out (w_state w)
+    /\ host_regs w' = host_regs w
+    /\ (exists l, w_events w' = w_events w ++ l).
+Print Assumptions successful_evaluation_frame.
